@@ -56,6 +56,15 @@ if False:  # pylint: disable=using-constant-test
 # build that list as integers.
 _allowed_d1_characters = set(tuple(range(65, 91)) + tuple(range(48, 58)) + tuple((ord(b'_'),)))
 
+# The maximum length of file data that one directory record describes; a longer
+# file is recorded as several records (a "multi-extent" file).  The value is
+# taken from xorriso.
+_MAX_EXTENT_LENGTH = 0xfffff800
+if os.environ.get('PYCDLIB_VERIF') == '1':
+    # Verification hook, off unless PYCDLIB_VERIF=1: lets a test harness
+    # exercise multi-extent files without gigabytes of data.
+    _MAX_EXTENT_LENGTH = int(os.environ.get('PYCDLIB_VERIF_MAX_EXTENT', _MAX_EXTENT_LENGTH))
+
 
 def _check_d1_characters(name):
     # type: (bytes) -> None
@@ -3431,7 +3440,7 @@ class PyCdlib:
         while not done:
             # The maximum length we allow in one directory record is 0xfffff800
             # (this is taken from xorriso, though I don't really know why).
-            thislen = min(left, 0xfffff800)
+            thislen = min(left, _MAX_EXTENT_LENGTH)
 
             ino = None
             if fp is not None:
